@@ -446,6 +446,12 @@ class H2Explorer(concur.Explorer):
             c.outcome = "error:" + simnet.exc_name(e)
             c.exc = repr(e)[:200]
             if type(e).__name__ in ("CancelledError", "Cancelled"):
+                if not getattr(c, "cancel_requested", False) and not getattr(self, "tearing_down", False):
+                    # nobody cancelled this caller: a cancellation that belongs to another request has been handed to it
+                    c.outcome = "error:Other"
+                    c.exc = "spurious " + repr(e)[:160]
+                    c.state = "done"
+                    return
                 c.outcome = "cancelled"
                 c.state = "done"
                 raise
